@@ -228,5 +228,19 @@ package syncx
 //@   results val, err
 //@   requires lg.m != nil && fn != nil
 //@   call Done#0: assert !inDom(lg.m, key)
-//@   ensures  calls(fn) == old(calls(fn)) + 1 && val == ret(fn, 0) && err == ret(fn, 1) && !inDom(lg.m, key) && wg(wg) == 0
-//@   ensures_panic calls(fn) == old(calls(fn)) + 1 && !inDom(lg.m, key) && wg(wg) == 0
+//@   ensures  calls(fn) == old(calls(fn)) + 1 && val == ret(fn, 0) && err == ret(fn, 1) && !inDom(lg.m, key)
+//@   ensures_local wg(wg) == 0
+//@   ensures_panic calls(fn) == old(calls(fn)) + 1 && !inDom(lg.m, key)
+//@   ensures_panic_local wg(wg) == 0
+
+// LockedCalls.Do: the caller's fn is run only by makeCall, i.e. only after this call has registered itself for the key while
+// no other call was registered (every path to fn goes through the registration, whatever the key)
+//@ func (lg *lockedGroup) Do
+//@   property C07
+//@   flag callbacks_noheap nolock returns_locked
+//@   requires lg.m != nil && fn != nil
+//@   loop begin: invariant lg.m != nil && calls(fn) == old(calls(fn))
+//@   call fn#*: assert false
+//@   call makeCall#0: assert arg_key == key && arg_fn == fn && !inDom(lg.m, key)
+//@   ensures calls(fn) == old(calls(fn)) + 1
+//@   ensures_panic calls(fn) == old(calls(fn)) + 1
